@@ -23,7 +23,7 @@ META = {
     "design_ref": "DESIGN.md 4 (C09), design/C09.md",
 }
 
-GEN_MODULES = ["Gen/Mappers.v", "Gen/Options.v", "Gen/Registry.v"]
+GEN_MODULES = ["Gen/Mappers.v", "Gen/Options.v", "Gen/RegistryC09.v"]
 
 
 def coq_str(s):
@@ -447,7 +447,7 @@ def sub_options(c, ctx):
 
 # ---------------------------------------------------------------------------------------------- (iii) registry
 REGISTRY_EVAL = """From Coq Require Import List NArith ZArith String Bool.
-From GV Require Import Base.Ints Model.Registry Gen.Registry.
+From GV Require Import Base.Ints Model.Registry Gen.RegistryC09.
 Import ListNotations. Local Open Scope N_scope.
 Definition known : list (list N) := [[101;100;50;53;53;49;57]; [99;48;57;116;121;112;101;56]].
 Definition cases : list (N * list N * (N * N)) := [%s].
@@ -530,7 +530,7 @@ def sub_registry(c, ctx):
     ctx.model_mon_bad_registry = [inputs[i].hex() for i, _ in (pairs(cout, "model_panics") or [])[:3]]
     if corr_bad and not panics:
         i, m = corr_bad[0]
-        c.fail_obligation("correspondence Model/Registry.v+Gen/Registry.v vs gcrypto.Registry.Unmarshal",
+        c.fail_obligation("correspondence Model/Registry.v+Gen/RegistryC09.v vs gcrypto.Registry.Unmarshal",
                           "model outcome %d, real %s on input %s (%d differ)" % (m, obs[i], inputs[i].hex(), len(corr_bad)),
                           {"sub": "registry", "input_hex": inputs[i].hex()})
 
